@@ -671,13 +671,17 @@ def on_named_tuple(instance: Instance, ctx: Context) -> JSONSchema:
     properties = {}
     for f_name in fields:
         f_type = annotations.get(f_name, Any)
-        f_schema = get_schema(instance.derive(type=f_type), ctx)
+        f_instance = instance.derive(type=f_type)
+        f_schema = get_schema(f_instance, ctx)
         f_default = defaults.get(f_name, MISSING)
         if f_default is not MISSING:
             if isinstance(f_schema, EmptyJSONSchema):
                 f_schema = JSONSchema()
+            # the derived instance has evaluated a string annotation
             f_schema.default = _default(
-                f_type, f_default, instance.get_self_config()
+                f_instance._original_type,
+                f_default,
+                instance.get_self_config(),
             )
         properties[f_name] = f_schema
     if as_dict:
